@@ -147,3 +147,13 @@ def run_shard(shard, col):
 
 def replay(desc, col):
     check(desc, col)
+
+REGISTER = True
+MUTANTS = [
+    {"what": "unfixed tree (commit d9e4e78): 2-D sentinel, sum ties, in-place negate", "caught": True},
+]
+MANIFEST = {
+    "level_text": "Differential testing of fast_pareto_mask and makepareto_numpy against an exact O(n^2) reference on generated matrices built to collide (ties, duplicated rows, equal column sums, float32 rounding ties, +inf, constant columns, many/one groups, all five goal kinds): kept index sets must be identical. No counterexample in N generated matrices; not a proof.",
+    "level_note": "Trusted: vf/ref/pareto.py. float64/int64 inputs hold float32-exact values; no NaN, no -inf, +inf only in min/diff columns; prime goals on positive integers.",
+    "technique": "property-based differential testing against a reference model (Hypothesis)",
+}
